@@ -231,6 +231,7 @@ func (w *World) buildResponse(req *http.Request, a *Ans, now time.Time) (*http.R
 	}
 	if a.Upd == 1 {
 		add("X-Upd", "upd-"+tag)
+		add("Content-Language", "upd-"+tag) // a 304 may update any field but the ones that describe the missing body's length
 	}
 	m := M{"st": st, "ccp": a.CCP, "ma": None, "fl": []string{}, "swr": None, "sie": None, "ncf": 0}
 	ds := w.con.respDirectives(a)
@@ -308,6 +309,11 @@ func (w *World) buildResponse(req *http.Request, a *Ans, now time.Time) (*http.R
 	m["etag"] = a.Etag
 	if a.Etag > 0 {
 		s := fmt.Sprintf(`"etag-%d"`, a.Etag)
+		if a.Etag == 7 {
+			s = "etag-7-unquoted" // servers send these; it is opaque to a cache all the same
+		} else if a.Etag == 8 {
+			s = `W/"etag-8"`
+		}
 		add("ETag", s)
 		w.mu.Lock()
 		w.etagTab[s] = a.Etag
@@ -315,9 +321,21 @@ func (w *World) buildResponse(req *http.Request, a *Ans, now time.Time) (*http.R
 	}
 	m["vary"], m["vs"] = ints(a.Vary), a.VS
 	if a.VS == 1 {
-		add("Vary", "*")
+		s := "*"
+		if a.VSp == 2 { // any list with the member "*" means the same
+			s = []string{"X-A, *", "*, accept-language", "X-B ,*"}[w.rnd.Intn(3)]
+		}
+		add("Vary", s)
 		w.mu.Lock()
-		w.varyTab["*"] = []int{-1}
+		w.varyTab[s] = []int{-1}
+		w.mu.Unlock()
+	} else if len(a.Vary) > 1 && a.VSp == 1 {
+		// one field line per name: the list is the concatenation of the lines
+		w.mu.Lock()
+		for _, f := range a.Vary {
+			add("Vary", SelFields[f])
+		}
+		w.varyTab[SelFields[a.Vary[0]]+"\x00multi"] = a.Vary
 		w.mu.Unlock()
 	} else if len(a.Vary) > 0 {
 		names := make([]string, len(a.Vary))
@@ -325,6 +343,9 @@ func (w *World) buildResponse(req *http.Request, a *Ans, now time.Time) (*http.R
 			names[i] = SelFields[f]
 			if a.Sp%2 == 1 {
 				names[i] = strings.ToLower(names[i])
+			}
+			if a.VSp == 3 {
+				names[i] = strings.ToUpper(names[i])
 			}
 		}
 		s := strings.Join(names, ", ")
